@@ -389,6 +389,66 @@ func (c *ctl) doTTL(id int) error {
 	return c.judge(fmt.Sprintf("time-to-live of w%d fires", id), obs, func(m *model) string { return m.ttl(id) })
 }
 
+// doTTLDuringRoll: a waiter's time-to-live fires while the window processor's pass of the same instant runs. Either
+// order of the two is an outcome the statement allows - the pass first (the waiter is released if its turn has come,
+// otherwise it expires) or the time-to-live first (the waiter expires, the pass hands its slots to the others) - but
+// nothing else: in particular not "the pass spent a slot on the waiter and the waiter was rejected".
+func (c *ctl) doTTLDuringRoll(w *rw) error {
+	pt, _ := c.s.procTimer()
+	at := pt.At.UnixNano()
+	if now0 := c.s.now(); at < now0 {
+		at = now0
+	}
+	c.classes["ttl_fires_while_the_roll-over_runs"]++
+	c.nt = true
+	rollObs, res, held, blocked, err := c.s.fireTTLDuringRoll(w)
+	if err != nil {
+		return err
+	}
+	if blocked {
+		return c.processorBlocked()
+	}
+	if held {
+		c.classes["ttl_waiter_kept_between_timer_and_lock_during_the_pass"]++
+	}
+	obs := fmt.Sprintf("roll-over released %s, w%d returned %s", rollObs, w.id, strings.SplitN(res, " ", 2)[0])
+	without := func(ids []int) []int {
+		out := []int{}
+		for _, i := range ids {
+			if i != w.id {
+				out = append(out, i)
+			}
+		}
+		return out
+	}
+	if err := c.judge(fmt.Sprintf("time-to-live of w%d fires while the roll-over runs", w.id), obs, func(m *model) string {
+		passFirst, ttlFirst := m.clone(), m.clone()
+		rel := passFirst.roll(at)
+		resA := "true"
+		got := false
+		for _, i := range rel {
+			got = got || i == w.id
+		}
+		if !got {
+			resA = passFirst.ttl(w.id)
+		}
+		a := fmt.Sprintf("roll-over released %v, w%d returned %s", without(rel), w.id, resA)
+		resB := ttlFirst.ttl(w.id)
+		b := fmt.Sprintf("roll-over released %v, w%d returned %s", ttlFirst.roll(at), w.id, resB)
+		switch obs {
+		case b:
+			m.adopt(ttlFirst)
+			return b
+		default:
+			m.adopt(passFirst)
+			return a
+		}
+	}); err != nil {
+		return err
+	}
+	return c.checkProcTimer()
+}
+
 // doFire fires one of the timers that are due first.
 func (c *ctl) doFire(pick int) error {
 	p := c.pending()
@@ -404,6 +464,26 @@ func (c *ctl) doFire(pick int) error {
 		c.classes["fire_choice_among_simultaneous_timers"]++
 	}
 	t := p[pick%n]
+	// the window processor's timer and a waiter's time-to-live are due at the same instant: in one case of three
+	// the two really overlap (the waiter is kept between its timer and the queue lock while the pass runs)
+	if n > 1 && pick%3 == 0 {
+		var proc bool
+		var racer *rw
+		for _, q := range p[:n] {
+			if strings.Contains(q.Owner, procOwner) {
+				proc = true
+				continue
+			}
+			for _, w := range c.s.ws {
+				if w.st == mParked && w.timerID == q.ID && racer == nil {
+					racer = w
+				}
+			}
+		}
+		if proc && racer != nil {
+			return c.doTTLDuringRoll(racer)
+		}
+	}
 	if strings.Contains(t.Owner, procOwner) {
 		return c.doRoll()
 	}
